@@ -631,5 +631,6 @@ fn controls_of(op: &Op, step: usize) -> (u8, Vec<Msg>) {
 		Op::UnsetErrHandler => (0, one(Ctrl::SetErr(false))),
 		Op::DropHandle => (0, vec![]),
 		Op::RawContinue => (0, one(Ctrl::ContinueTryGracefulRestart)),
+		Op::RawNextEnding => (0, one(Ctrl::NextEnding)),
 	}
 }
